@@ -644,3 +644,58 @@ def rule_hyper_count(ctx):
     else:
         r.bad(Finding("hyper-count", "TensorNetwork.compute_contracted_inds", "explicit output labels are not kept", where=where, operand="outputs"))
     return r
+
+
+# ------------------------------------------------------------- view-accrual
+SELECTORS = ("select", "select_any", "select_all", "select_neighbors", "select_local", "_select_tids", "_select_without_tids", "select_sites")
+
+
+def rule_view_accrual(ctx):
+    r = RuleResult(
+        "view-accrual",
+        "rescaling that accrues into `exponent` must accrue into the network that is kept: calling "
+        "equalize_norms_(value) / strip_exponent on a temporary selection (a view returned by select*(), whose own "
+        "exponent starts at 0 and is thrown away) rescales the shared tensors while the stripped factor is lost",
+    )
+    n = 0
+    for g in ctx.prog.all_functions(nested=False):
+        if g.is_alias or isinstance(g.node, ast.Lambda) or not g.module.name.startswith("quimb.tensor"):
+            continue
+        defs = {}
+        for x in ast.walk(g.node):
+            if isinstance(x, ast.Assign) and len(x.targets) == 1 and isinstance(x.targets[0], ast.Name):
+                defs.setdefault(x.targets[0].id, []).append(x)
+        for c in ast.walk(g.node):
+            if not (isinstance(c, ast.Call) and isinstance(c.func, ast.Attribute) and c.func.attr in ("equalize_norms_", "equalize_norms", "strip_exponent")):
+                continue
+            if c.func.attr == "equalize_norms" and not any(k.arg == "inplace" and const_value(k.value, None) is True for k in c.keywords):
+                continue
+            # value=None redistributes the factor into the tensors: nothing is accrued
+            val = c.args[0] if (c.args and c.func.attr.startswith("equalize")) else next((k.value for k in c.keywords if k.arg == "value"), None)
+            if c.func.attr.startswith("equalize") and (val is None or const_value(val, 0) is None):
+                continue
+            recv = c.func.value
+            temp = None
+            if isinstance(recv, ast.Call) and isinstance(recv.func, ast.Attribute) and recv.func.attr in SELECTORS:
+                temp = src_of(recv)[:40]
+            elif isinstance(recv, ast.Name) and recv.id in defs:
+                for d in defs[recv.id]:
+                    v = d.value
+                    if isinstance(v, ast.Call) and isinstance(v.func, ast.Attribute) and v.func.attr in SELECTORS and d.lineno < c.lineno \
+                            and not any(k.arg == "virtual" and const_value(k.value, None) is False for k in v.keywords):
+                        # is the view's exponent ever read back afterwards?
+                        read_back = any(isinstance(y, ast.Attribute) and y.attr == "exponent" and src_of(y.value) == recv.id and y.lineno > c.lineno for y in ast.walk(g.node))
+                        returned = any(isinstance(y, ast.Return) and y.value is not None and recv.id in {z.id for z in ast.walk(y.value) if isinstance(z, ast.Name)} for y in ast.walk(g.node))
+                        if not read_back and not returned:
+                            temp = f"{recv.id} = {src_of(v)[:30]}"
+            if c.func.attr == "strip_exponent" and temp is None:
+                continue
+            n += 1
+            if temp:
+                r.bad(Finding("view-accrual", g.qualname,
+                              f"`{src_of(c)[:60]}` (line {c.lineno}) accrues the stripped factor into the exponent of a temporary selection ({temp}) that is discarded: "
+                              f"the kept network's value changes by that factor", where=f"{g.module.relpath}:{c.lineno}", operand=c.func.attr))
+            else:
+                r.ok(f"{g.qualname}:{c.func.attr}", sample={"function": g.qualname, "call": src_of(c)[:60], "receiver": "the kept network"})
+    r.floor(n, 5, "exponent-accruing equalize_norms_ calls")
+    return r
